@@ -340,14 +340,17 @@ func (r *runningRoutine) execute(
 				} else if r.r.routine == r {
 					dur := r.r.retryBo.NextBackOff()
 					if dur != backoff.Stop {
-						r.deferRetry = time.AfterFunc(dur, func() {
+						var timer *time.Timer
+						timer = time.AfterFunc(dur, func() {
 							r.r.bcast.HoldLock(func(broadcast func(), getWaitCh func() <-chan struct{}) {
-								if r.r.ctx != nil && r.r.routine == r && r.exited {
+								// a callback whose retry was superseded (restart, new exit) must not restart
+								if r.deferRetry == timer && r.r.ctx != nil && r.r.routine == r && r.exited {
 									r.start(r.r.ctx, r.exitedCh, true)
 								}
 								broadcast()
 							})
 						})
+						r.deferRetry = timer
 					}
 				}
 			}
